@@ -209,3 +209,45 @@ Fixpoint entry_names (f : name -> bool) (e : entry) : bool :=
   | EDir c | EPhantom c => go c
   | _ => true
   end.
+
+(* ---------- C03 on disk: content synchronization does not track ---------- *)
+(* Content the plan knows nothing about -- something sitting at the path of a
+   planned creation, or a name inside a directory the plan removes that the
+   expected entry does not list -- must be exactly what it was afterwards. *)
+Section Check03.
+  Variable rn : name.
+  Variable pre post : node.
+
+  Definition untouched3 (p : path) : bool :=
+    onode_eqb (get (rn :: p) post) (get (rn :: p) pre).
+
+  (* unknown children of expected directories, at any depth *)
+  Fixpoint guard_unknown (p : path) (e : entry) {struct e} : bool :=
+    let fix go (l : list (name * entry)) : bool :=
+      match l with
+      | [] => true
+      | (n, e') :: t => guard_unknown (p ++ [n])%list e' && go t
+      end in
+    match e with
+    | EDir ec =>
+      match get (rn :: p) pre with
+      | Some (NDir _ cs) =>
+        forallb (fun ny => match lookup (fst ny) ec with
+                           | Some _ => true
+                           | None => untouched3 (p ++ [fst ny])%list
+                           end) cs && go ec
+      | _ => true
+      end
+    | _ => true
+    end.
+
+  Definition check_c03_disk (plan : list change) : bool :=
+    forallb (fun c => match cold c with
+                      | None =>   (* whatever occupies a creation target *)
+                        match get (rn :: cpath c) pre with
+                        | Some _ => untouched3 (cpath c)
+                        | None => true
+                        end
+                      | Some e => guard_unknown (cpath c) e
+                      end) plan.
+End Check03.
